@@ -245,12 +245,17 @@ def has_connect_weld(m):
   return bool(np.any((m.eq_type == mujoco.mjtEq.mjEQ_CONNECT) | (m.eq_type == mujoco.mjtEq.mjEQ_WELD)))
 
 
-def directed_cvel():
-  """Minimal: same integration state, fresh Data vs Data that already ran forward() once (nothing poisoned)."""
+WELD_XML = CVEL_XML.replace('<connect body1="b" body2="world" anchor="0.3 0 0"/>', '<weld body1="b" body2="world"/>')
+
+
+def directed_cvel(xml=CVEL_XML):
+  """Minimal: same integration state, fresh Data vs Data that already ran forward() once (nothing poisoned).
+  Run for a connect-only and for a weld-only model."""
   import mujoco
 
   import mujoco_warp as mjw
 
+  CVEL_XML = xml
   m = mujoco.MjModel.from_xml_string(CVEL_XML)
   mm = mjw.put_model(m)
   st = {"qpos": [0.3, -0.2], "qvel": [2.0, -1.0]}
@@ -291,14 +296,24 @@ def directed_nan():
           "differs": not np.array_equal(A.qvel.numpy(), B.qvel.numpy(), equal_nan=True)}  # fmt: skip
 
 
-def run_case(res, k, hist_steps):
+def eq_case(i, kind):
+  """Equality scene `kind` as a poisoning case (velocity-stage scratch d.cvel / d.cdof_dot / ... of a model with
+  equalities is overwritten before forward like everything else)."""
+  import mujoco
+
+  jac, solver, integ = [("dense", "Newton", "Euler"), ("sparse", "CG", "implicitfast"), ("dense", "CG", "implicitfast"), ("sparse", "Newton", "Euler")][i % 4]
+  xml = SCENES["eq:" + kind].format(jac=jac, solver=solver, cone="pyramidal", integ=integ)
+  return np.random.default_rng(vlib.seed() + 1290 + i), xml, mujoco.MjModel.from_xml_string(xml), (integ, jac, solver, "eq:" + kind)
+
+
+def run_case(res, k, hist_steps, pre=None):
   """One model, three poison streams; odd k at TIGHT capacities (njmax / nconmax = exactly what the history and the
   compared step need).  Returns list of (key, what, data)."""
   import itertools
 
   import mujoco_warp as mjw
 
-  rng, xml, m, cfg = make_case(k)
+  rng, xml, m, cfg = pre or make_case(k)
   mm = mjw.put_model(m)
   st = random_state_dict(rng, m)
   out = []
@@ -366,6 +381,34 @@ SCENES = {
 </worldbody></mujoco>""",
 }
 SCENE_INIT = {"box": None, "arm": {"qpos_head": [-0.7, 0.9], "qvel_head": [3.0, -2.0]}}
+
+# equality variety: two pendulum chains coupled by ONE kind of equality at a time (body- and site-specified weld and
+# connect, joint, tendon) and two mixtures, released with non-zero velocities.  The row count does not change here;
+# what matters is that the used Data's last forward pass was at a DIFFERENT state than the one copied in, so every
+# velocity-stage quantity it still holds (d.cvel, d.cdof_dot, ...) is stale.
+EQ_BASE = """<mujoco><option timestep="0.004" jacobian="{jac}" solver="{solver}" cone="{cone}" integrator="{integ}"/>
+<default><geom contype="0" conaffinity="0"/></default><worldbody>
+<body name="a1" pos="0 0 1"><joint name="ja1" type="hinge" axis="0 1 0"/><geom type="capsule" fromto="0 0 0 .3 0 0" size=".03"/>
+ <body name="a2" pos=".3 0 0"><joint name="ja2" type="hinge" axis="0 1 0"/><geom type="capsule" fromto="0 0 0 .3 0 0" size=".03"/><site name="sa2" pos=".3 0 0"/></body></body>
+<body name="b1" pos="0 .4 1"><joint name="jb1" type="ball"/><geom type="capsule" fromto="0 0 0 .3 0 0" size=".03"/>
+ <body name="b2" pos=".3 0 0"><joint name="jb2" type="hinge" axis="0 0 1"/><geom type="capsule" fromto="0 0 0 .3 0 0" size=".03"/><site name="sb2" pos=".3 0 0"/></body></body>
+</worldbody>
+<tendon><fixed name="t1"><joint joint="ja1" coef="1"/><joint joint="ja2" coef="-0.5"/></fixed>
+<fixed name="t2"><joint joint="jb2" coef="1"/><joint joint="ja2" coef=".3"/></fixed></tendon>
+<equality>EQ</equality></mujoco>"""
+EQ_KINDS = {
+  "weld": '<weld body1="a2" body2="b2"/>',
+  "weld_site": '<weld site1="sa2" site2="sb2"/>',
+  "connect": '<connect body1="a2" body2="b2" anchor=".3 0 0"/>',
+  "connect_site": '<connect site1="sa2" site2="sb2"/>',
+  "joint": '<joint joint1="ja1" joint2="ja2" polycoef="0 1 0 0 0"/>',
+  "tendon": '<tendon tendon1="t1" tendon2="t2" polycoef="0 1 0 0 0"/>',
+  "mixed_weld": '<weld body1="a2" body2="b2"/><joint joint1="ja1" joint2="jb2" polycoef="0 1 0 0 0"/><tendon tendon1="t1" tendon2="t2" polycoef="0 1 0 0 0"/>',
+  "mixed_all": '<connect site1="sa2" site2="sb2"/><weld body1="a1" body2="b1"/><joint joint1="ja1" joint2="ja2" polycoef="0 1 0 0 0"/>',
+}
+for _k, _v in EQ_KINDS.items():
+  SCENES["eq:" + _k] = EQ_BASE.replace("EQ", _v)
+  SCENE_INIT["eq:" + _k] = {"qpos_head": [0.2, -0.3], "qvel_head": [1.5, -2.0, 0.5, -1.0, 0.7, 1.2]}
 OUTS = ["qacc", "qfrc_constraint", "nefc", "solver_niter", "nacon", "sensordata"]
 
 
@@ -387,13 +430,13 @@ def _outputs(d):
   return o
 
 
-def revisit(scene, jac, solver, cone, cap, nstep):
+def revisit(scene, jac, solver, cone, cap, nstep, integ="Euler"):
   """Returns (list of failures, info).  cap in {"exact", "le16", "mid", "default"}."""
   import mujoco
 
   import mujoco_warp as mjw
 
-  xml = SCENES[scene].format(jac=jac, solver=solver, cone=cone)
+  xml = SCENES[scene].format(jac=jac, solver=solver, cone=cone, integ=integ)
   m = mujoco.MjModel.from_xml_string(xml)
   mm = mjw.put_model(m)
 
@@ -434,7 +477,7 @@ def revisit(scene, jac, solver, cone, cap, nstep):
       return [], {"skipped": "capacity overflow in the history run"}
   peak = int(np.argmax(nefcs))
   few = [k for k in range(nstep) if 0 < nefcs[k] < max(nefcs)]
-  picks = sorted(set(few[:3] + few[len(few) // 2 : len(few) // 2 + 2] + few[-2:] + [0, nstep - 1]))
+  picks = sorted(set(few[:3] + few[len(few) // 2 : len(few) // 2 + 2] + few[-2:] + [0, nstep // 3, (2 * nstep) // 3, nstep - 1]))
   fails = []
   for k in picks:
     fresh = new(caps)
@@ -448,7 +491,7 @@ def revisit(scene, jac, solver, cone, cap, nstep):
       if diff:
         with np.errstate(invalid="ignore"):
           mx = {n: float(np.nanmax(np.abs(a[n].astype(np.float64) - b[n].astype(np.float64)))) for n in diff if a[n].shape == b[n].shape and a[n].size}
-        fails.append({"scene": scene, "xml": xml, "config": [jac, solver, cone, cap], "caps": caps, "nstep": nstep, "revisit_step": k, "nefc_at_state": nefcs[k],
+        fails.append({"scene": scene, "xml": xml, "config": [jac, solver, cone, cap], "integ": integ, "caps": caps, "nstep": nstep, "revisit_step": k, "nefc_at_state": nefcs[k],
                       "nefc_peak": max(nefcs), "call": fname, "differing": diff, "max_abs_diff": mx})  # fmt: skip
     # give the used Data its large history back: the state with the most rows
     _set_state(used, states[peak])
@@ -459,6 +502,13 @@ def revisit(scene, jac, solver, cone, cap, nstep):
 def revisit_plan(quick):
   plan = []
   for scene in SCENES:
+    if scene.startswith("eq:"):
+      combos = [("dense", "Newton", "Euler"), ("sparse", "CG", "implicitfast"), ("dense", "CG", "implicitfast"), ("sparse", "Newton", "Euler")]
+      if not quick:
+        combos = [(j, so, i) for j in ("dense", "sparse") for so in ("Newton", "CG") for i in ("Euler", "implicitfast", "implicit")]
+      for jac, solver, integ in combos:
+        plan.append((scene, jac, solver, "pyramidal", "default", integ))
+      continue
     for jac in ("dense", "sparse"):
       for solver in ("Newton", "CG"):
         for cone in ("pyramidal", "elliptic"):
@@ -470,7 +520,7 @@ def revisit_plan(quick):
           elif cone == "pyramidal":
             caps += ["le16"]
           for cap in caps:
-            plan.append((scene, jac, solver, cone, cap))
+            plan.append((scene, jac, solver, cone, cap, "Euler"))
   return plan
 
 
@@ -539,6 +589,8 @@ def run(res):
   fails = []
   for k in range(nmodels):
     fails += run_case(res, k, hist)
+  for i, kind in enumerate(EQ_KINDS):
+    fails += run_case(res, 2 * i, hist, pre=eq_case(i, kind))
   seen = set()
   for key, what, data in fails:
     found = True
@@ -547,17 +599,17 @@ def run(res):
     seen.add(key)
     res.violation(key, what, data)
   nun = sum(1 for key, _, _ in fails if key.startswith("C12:unexplained"))
-  res.obligation("oracle: poisoned-history Data vs fresh Data, no unexplained difference", nun == 0, f"{len(fails)} failing (model, stream) cases of {3 * nmodels}, {nun} not attributable to a recorded cause")
+  res.obligation("oracle: poisoned-history Data vs fresh Data, no unexplained difference", nun == 0, f"{len(fails)} failing (model, stream) cases of {3 * (nmodels + len(EQ_KINDS))}, {nun} not attributable to a recorded cause")
   # revisiting earlier states of a constraint-dropping trajectory, over capacity variants
   rv_fails, rv_runs, rv_skipped = [], 0, 0
-  for scene, jac, solver, cone, cap in revisit_plan(quick):
-    f, info = revisit(scene, jac, solver, cone, cap, 200 if scene == "box" else 120)
+  for scene, jac, solver, cone, cap, integ in revisit_plan(quick):
+    f, info = revisit(scene, jac, solver, cone, cap, {"box": 200, "arm": 120}.get(scene, 45), integ)
     if "skipped" in info:
       rv_skipped += 1
       continue
     rv_runs += 1
     res.count(info["picks"] * 2)
-    res.nontrivial(("revisit", scene, jac, solver, cone, cap))
+    res.nontrivial(("revisit", scene, jac, solver, cone, cap, integ))
     if rv_runs == 1:
       res.sample({"kind": "revisit", "scene": scene, "config": [jac, solver, cone, cap], **info})
     rv_fails += f
@@ -565,9 +617,9 @@ def run(res):
   for f in rv_fails:
     found = True
     key = f"C12:revisit:{f['scene']}:{f['config'][0]}-{f['config'][1]}-{f['config'][2]}:{f['differing'][0]}"
-    if tuple(f["config"]) in seen_cfg:
+    if (f["scene"], tuple(f["config"]), f["integ"]) in seen_cfg:
       continue
-    seen_cfg.add(tuple(f["config"]))
+    seen_cfg.add((f["scene"], tuple(f["config"]), f["integ"]))
     res.violation(key, f"used Data vs fresh Data with the same integration state (capacities {f['caps']}, state of step {f['revisit_step']} needing {f['nefc_at_state']} rows after a peak of {f['nefc_peak']}): {f['call']}() differs in {f['differing']}", f)
   res.obligation("oracle: revisited states of a constraint-dropping trajectory, used vs fresh Data byte for byte", not rv_fails, f"{rv_runs} (scene, jacobian, solver, cone, capacity) runs, {rv_skipped} skipped (capacity not applicable), {len(rv_fails)} mismatching calls")
   # sleeping enabled: subset solves on one Data vs fresh Data
@@ -579,9 +631,11 @@ def run(res):
     res.violation("C12:sleep:compact-solve-depends-on-earlier-solves:dense", f"dense compact solve with awake trees {f['awake_trees']} differs between a Data that solved other active sets before and a fresh Data (max abs {f['max_abs_diff']:.3g})", f)
   res.obligation("oracle: sleeping enabled, subset solves on one Data equal fresh-Data solves", not sl_fails, f"{len(sl_fails)} of {nsub} awake-tree subsets differ")
   # directed minimal reproductions (deterministic keys)
-  c = directed_cvel()
-  res.count()
-  res.sample({"kind": "directed-cvel", **{k2: c[k2] for k2 in ("qvel_fresh", "qvel_after_one_forward", "qvel_mujoco", "differs")}})
+  for c in (directed_cvel(CVEL_XML), directed_cvel(WELD_XML)):
+    res.count()
+    res.sample({"kind": "directed-cvel", **{k2: c[k2] for k2 in ("qvel_fresh", "qvel_after_one_forward", "qvel_mujoco", "differs")}})
+    if c["differs"]:
+      break
   if c["differs"]:
     found = True
     res.violation("C12:constraint:stale-cvel:connect-weld", "connect/weld rows subtract Jdot*qvel computed from d.cvel/d.cdof_dot, which make_constraint reads BEFORE fwd_velocity recomputes them: a fresh Data (cvel=0) and a Data that ran forward() once give different step() results for the same integration state; MuJoCo agrees with the second", c)
@@ -611,14 +665,14 @@ def replay(res, path):
   if not isinstance(r, dict) or "xml" not in r:
     print("replay: no concrete input in this file (proof breakage); re-run the check")
     return 1
-  if r["xml"] == CVEL_XML:
-    print(json.dumps(directed_cvel(), indent=1))
+  if r["xml"] in (CVEL_XML, WELD_XML):
+    print(json.dumps(directed_cvel(r["xml"]), indent=1))
     return 0
   if r["xml"] == NAN_XML:
     print(json.dumps(directed_nan(), indent=1))
     return 0
   if "revisit_step" in r:
-    f, info = revisit(r["scene"], *r["config"], r["nstep"])
+    f, info = revisit(r["scene"], *r["config"], r["nstep"], r.get("integ", "Euler"))
     print(json.dumps({"info": info, "failures": [{k2: x[k2] for k2 in ("revisit_step", "call", "differing", "max_abs_diff")} for x in f][:6]}, indent=1, default=str))
     return 0
   if "awake_trees" in r:
